@@ -15,6 +15,8 @@ pub fn merge(values: &[Value]) -> Result<Value, Error> {
 #[expect(clippy::too_many_lines)]
 #[expect(clippy::cognitive_complexity)]
 pub fn merger(rhs: Value, lhs: Value) -> Result<Value, Error> {
+    #[cfg(feature = "verif_hooks")]
+    crate::verif_hooks::bump(2);
     match (rhs, lhs) {
         // Null + Null = Null
         (Value::Null, Value::Null) => Ok(Value::Null),
